@@ -576,7 +576,9 @@ def roundtrip(tab, writer_rows, classes=None, separator=" ", record_sep=None):
     """Compose writer rows with the reader table.  Returns list of failures
     (class description, written text, what the reader produced)."""
     sim = Sim(tab)
-    classes = classes or tab.classes
+    classes = list(classes or tab.classes)
+    if record_sep is not None and record_sep not in classes:
+        classes.append(record_sep)       # the byte that frames records is a character a program can put into a string
     fails = []
     checked = 0
     undecided = []
